@@ -1589,6 +1589,8 @@ class MiniInterp:
                 raise Unknown("next() of a non-iterator")
             if name == "id":
                 return T("id", args[0].uid) if isinstance(args[0], Sym) else T("id", id(args[0]))
+            if name == "object" and not args:
+                return Sym("object()")
             if name == "super" and not args:
                 raise Unknown("super() outside a method")
             if name == "getattr" and len(args) >= 2 and isinstance(args[1], str):
